@@ -402,14 +402,36 @@ func runC12(r *Run) {
 			f := r.Fn("", en)
 			calls := callsMatching(f, false, nameHasSuffix("Redirect).parseAndClearFlashMessages"))
 			r.need(len(calls) == 1, en+" parses flash messages")
-			cut := map[edge]bool{}
-			for _, c := range callsMatching(f, false, nameIs("bytes.Contains")) {
-				for _, br := range ifsOnValue(f, c.Value()) {
-					if s, ok := br.truthSlot(true); ok {
-						cut[edge{br.If.Block(), s}] = true
-					}
+			// the edges on which the raw headers were found to mention the cookie: a branch on bytes.Contains / an index
+			// search, in the handler or in a boolean helper it asks (`if mentionsFlashCookie(raw) {`)
+			isSearch := nameIs("bytes.Contains", "bytes.Index", "strings.Contains", "strings.Index")
+			found := gateItemsIn(f, func(ci condInfo) (bool, bool) {
+				c, ok := stripValue(ci.Root).(*ssa.Call)
+				if !ok || !isSearch(calleeName(&c.Call)) || len(c.Call.Args) != 2 {
+					return false, false
 				}
-			}
+				if dependsOn(c.Call.Args[0], func(v ssa.Value) bool {
+					cc, ok := v.(*ssa.Call)
+					return ok && strings.HasSuffix(calleeName(&cc.Call), "RequestHeader).RawHeaders")
+				}) == nil {
+					return false, false
+				}
+				if strings.HasSuffix(calleeName(&c.Call), ".Contains") {
+					return true, ci.Op == token.ILLEGAL
+				}
+				k, isK := constInt(ci.Const)
+				if !isK {
+					return false, false
+				}
+				switch {
+				case (ci.Op == token.GEQ && k == 0) || (ci.Op == token.GTR && k == -1) || (ci.Op == token.NEQ && k == -1):
+					return true, true
+				case (ci.Op == token.LSS && k == 0) || (ci.Op == token.LEQ && k == -1) || (ci.Op == token.EQL && k == -1):
+					return false, true
+				}
+				return false, false
+			})
+			cut := cutsFor(f, found)
 			// what the pre-filter looks for occurs in every header block that carries the cookie: a piece of `name=`,
 			// nothing around it (another cookie may precede it on the line, the field name may be spelled cookie:)
 			name := ""
@@ -417,7 +439,17 @@ func runC12(r *Run) {
 				name, _ = constString(cm.Value)
 			}
 			r.need(name != "", "FlashCookieName is a string constant")
-			for i, c := range callsMatching(f, false, nameIs("bytes.Contains")) {
+			isRaw := func(v ssa.Value) bool {
+				cc, ok := v.(*ssa.Call)
+				return ok && strings.HasSuffix(calleeName(&cc.Call), "RequestHeader).RawHeaders")
+			}
+			nSearch := 0
+			for _, c := range callsMatching(f, false, isSearch) {
+				if dependsOn(c.Common.Args[0], isRaw) == nil {
+					continue // a search in something else than the raw header block (the routing helpers search paths)
+				}
+				i := nSearch
+				nSearch++
 				needle, okN := resolveLiteral(r, c.Common.Args[1], 0)
 				r.check(okN && needle != "" && strings.Contains(name+"=", needle), fmt.Sprintf("%s:flash-prefilter#%d:not-narrower-than-the-parser", en, i+1), r.pos(c.Instr), fmt.Sprintf("the pre-filter searches %q, a piece of %q", needle, name+"="),
 					fmt.Sprintf("the pre-filter searches for %q (resolved=%v), which is not a piece of %q: a request whose flash cookie follows another cookie on the line, or whose header field is spelled `cookie:`, is not recognised — its messages are never delivered and the cookie is never expired", needle, okN, name+"="))
@@ -435,11 +467,9 @@ func runC12(r *Run) {
 			isParse := func(in ssa.Instruction) bool { return in == calls[0].Instr }
 			// legitimate ways around the parser: the raw headers are empty / do not mention the cookie
 			absent := map[edge]bool{}
-			for _, c := range callsMatching(f, false, nameIs("bytes.Contains")) {
-				for _, br := range ifsOnValue(f, c.Value()) {
-					if s, ok := br.truthSlot(false); ok {
-						absent[edge{br.If.Block(), s}] = true
-					}
+			for e := range cut {
+				if e.From.Parent() == f { // the other arm of a test that found the name (directly, or through the helper)
+					absent[edge{e.From, 1 - e.Slot}] = true
 				}
 			}
 			for _, br := range branchesIn(f) {
